@@ -910,7 +910,11 @@ class Ref(object):
       self.refused_buffer_use(st, xid, in_port, acts)
     else:
       bid = self.resolve_buffer(st["buffer"])
-      rs = self.roundtrip(W.enc_packet_out(xid, bid, in_port, acts))
+      decoy = b""
+      if st.get("decoy") is not None and bid != W.NO_BUFFER:
+        decoy = build_frame(st["decoy"])
+        self.sim.probes["packet_out_buffer_id_and_data"] += 1
+      rs = self.roundtrip(W.enc_packet_out(xid, bid, in_port, acts, decoy))
       errs = [d for d in rs if d["type"] == W.ERROR and d["xid"] == xid
               and d["etype"] == W.ET_BAD_REQUEST
               and d["code"] in (W.BRC_BUFFER_EMPTY, W.BRC_BUFFER_UNKNOWN)]
